@@ -75,7 +75,9 @@ class Parser:
       contentmsg = "Content: {}\n".format(string)
       datatypemsg = "Datatype: {}\n".format(datatype)
       errmsg = err.message if hasattr(err, "message") else str(err)
-      raise err.__class__(
+      errclass = err.__class__ if isinstance(err, gfapy.Error) \
+                               else gfapy.FormatError
+      raise errclass(
             linemsg +
             fieldnamemsg +
             datatypemsg +
